@@ -25,6 +25,7 @@ import (
 	"os"
 	"strconv"
 	"strings"
+	"sync"
 	"sync/atomic"
 	"time"
 )
@@ -43,6 +44,35 @@ func Inconclusive(err error) Result              { return Result{Err: err} }
 
 type Handler func(i int, raw []byte) Result
 
+var (
+	outMu sync.Mutex
+	outW  *bufio.Writer
+	SeedV int64 = 1
+)
+
+// Emit sends a side-channel JSON document to the driver ("O <json>" line), e.g. a
+// table observation that a trace specification validates later.
+func Emit(doc interface{}) {
+	b, err := json.Marshal(doc)
+	if err != nil {
+		return
+	}
+	outMu.Lock()
+	defer outMu.Unlock()
+	if outW != nil {
+		fmt.Fprintf(outW, "O %s\n", b)
+	}
+}
+
+// EmitBatch sends a group of documents of one kind that must stay contiguous in the
+// trace the driver assembles ("O {kind, docs}").
+func EmitBatch(kind string, docs []interface{}) {
+	if len(docs) == 0 {
+		return
+	}
+	Emit(map[string]interface{}{"kind": kind, "docs": docs})
+}
+
 // Run parses the common flags from args and feeds scenarios to h.
 func Run(args []string, h Handler) {
 	fs := flag.NewFlagSet("replay", flag.ExitOnError)
@@ -51,7 +81,9 @@ func Run(args []string, h Handler) {
 	after := fs.Int("after", -1, "skip scenarios with index <= after")
 	only := fs.Int("only", -1, "run only this scenario index")
 	timeout := fs.Duration("timeout", 30*time.Second, "per-scenario watchdog")
+	seed := fs.Int64("seed", 1, "seed for any random choice of the engine")
 	fs.Parse(args)
+	SeedV = *seed
 	k, n := 0, 1
 	if p := strings.SplitN(*shard, "/", 2); len(p) == 2 {
 		k, _ = strconv.Atoi(p[0])
@@ -65,6 +97,7 @@ func Run(args []string, h Handler) {
 	defer f.Close()
 	out := bufio.NewWriterSize(os.Stdout, 1<<16)
 	defer out.Flush()
+	outW = out
 	var cur int64 = -1
 	var beat int64
 	go func() {
@@ -94,12 +127,15 @@ func Run(args []string, h Handler) {
 		if len(line) == 0 {
 			continue
 		}
+		outMu.Lock()
 		fmt.Fprintf(out, "B %d\n", i)
 		out.Flush()
+		outMu.Unlock()
 		atomic.StoreInt64(&cur, int64(i))
 		atomic.AddInt64(&beat, 1)
 		r := h(i, line)
 		atomic.StoreInt64(&cur, -1)
+		outMu.Lock()
 		switch {
 		case r.Err != nil:
 			fmt.Fprintf(out, "E %d %s\n", i, strings.ReplaceAll(r.Err.Error(), "\n", " "))
@@ -114,6 +150,7 @@ func Run(args []string, h Handler) {
 			fmt.Fprintf(out, "F %d %s\n", i, b)
 		}
 		out.Flush()
+		outMu.Unlock()
 	}
 	if err := sc.Err(); err != nil {
 		fmt.Fprintln(os.Stderr, "scan:", err)
